@@ -288,7 +288,8 @@ fn build(ws: &Workspace, chunk: usize, workers: usize, sched: &str, want: &Optio
     Built { pm, order, goc, yields: st.yields, stuck }
 }
 
-/// C08 on a hierarchy item: start <= end, selection inside the full range, both on lines of the document the uri names
+/// C08 on a hierarchy item: start <= end, selection inside the full range, both inside the document the uri names
+/// (the lines exist and are long enough)
 fn item_ranges(i: &TypeHierarchyItem) -> &'static str {
     let le = |a: &lsp_types::Position, b: &lsp_types::Position| (a.line, a.character) <= (b.line, b.character);
     if !le(&i.range.start, &i.range.end) || !le(&i.selection_range.start, &i.selection_range.end) {
@@ -297,11 +298,42 @@ fn item_ranges(i: &TypeHierarchyItem) -> &'static str {
     if !le(&i.range.start, &i.selection_range.start) || !le(&i.selection_range.end, &i.range.end) {
         return "!selection-outside-range";
     }
-    let nlines = i.uri.to_file_path().ok().and_then(|p| std::fs::read_to_string(p).ok()).map(|t| t.split('\n').count()).unwrap_or(0);
-    if (i.range.end.line as usize) >= nlines.max(1) {
+    let text = i.uri.to_file_path().ok().and_then(|p| std::fs::read_to_string(p).ok()).unwrap_or_default();
+    let lines: Vec<&str> = text.split('\n').collect();
+    let inside = |p: &lsp_types::Position| match lines.get(p.line as usize) {
+        Some(l) => (p.character as usize) <= l.encode_utf16().count(),
+        None => false,
+    };
+    if !inside(&i.range.start) || !inside(&i.range.end) || !inside(&i.selection_range.start) || !inside(&i.selection_range.end) {
         return "!range-outside-document";
     }
     ""
+}
+
+/// C13 on a hierarchy item: the document its uri names is the file of the class that owns the item (the class itself for
+/// a class item, the declaring class — `detail` — for a member item), and the selection range covers the item's name
+/// there.  `-` when the item is as it must be, else `!uri-names-<stem>` / `!selection-is-<text>`.
+fn item_owner(i: &TypeHierarchyItem, member: bool) -> String {
+    let owner = if member { i.detail.clone().unwrap_or_else(|| "?".to_string()) } else { i.name.clone() };
+    let path = i.uri.to_file_path().ok();
+    let stem = path.as_ref().and_then(|p| p.file_stem().map(|s| s.to_string_lossy().to_string())).unwrap_or_else(|| "?".to_string());
+    if stem.to_uppercase() != owner.to_uppercase() {
+        return format!("!uri-names-{}", stem);
+    }
+    let text = path.and_then(|p| std::fs::read_to_string(p).ok()).unwrap_or_default();
+    let sel = &i.selection_range;
+    let at: Option<String> = text.split('\n').nth(sel.start.line as usize).and_then(|l| {
+        if sel.start.line != sel.end.line {
+            return None;
+        }
+        let u: Vec<u16> = l.encode_utf16().collect();
+        u.get(sel.start.character as usize..sel.end.character as usize).map(String::from_utf16_lossy)
+    });
+    match at {
+        Some(t) if t.to_uppercase() == i.name.to_uppercase() => String::new(),
+        Some(t) => format!("!selection-is-{}", t.chars().filter(|c| c.is_ascii_alphanumeric()).collect::<String>()),
+        None => "!selection-is-nothing".to_string(),
+    }
 }
 
 fn names(r: Result<Vec<TypeHierarchyItem>, crate::manager::data_structs::ProjectManagerError>, member: bool) -> String {
@@ -310,7 +342,7 @@ fn names(r: Result<Vec<TypeHierarchyItem>, crate::manager::data_structs::Project
         Ok(items) => wsutil::upper_sorted(
             items
                 .iter()
-                .map(|i| format!("{}{}", if member { i.detail.clone().unwrap_or_else(|| "?".to_string()) } else { i.name.clone() }, item_ranges(i)))
+                .map(|i| format!("{}{}{}", if member { i.detail.clone().unwrap_or_else(|| "?".to_string()) } else { i.name.clone() }, item_ranges(i), item_owner(i, member)))
                 .collect(),
         ),
     }
